@@ -47,7 +47,7 @@ pub fn data_dir() -> std::path::PathBuf {
   std::env::var("VERIF_SIM").map(std::path::PathBuf::from).unwrap_or_else(|_| std::path::PathBuf::from("/verif/sim")).join("data")
 }
 
-const GEN_INVOCABLES: [&str; 29] = ["misc", "inv2", "rx2", "tu2", "tany2", "tp2", "to2", "num", "tmp", "rx", "c1", "c2", "c3", "c4", "svc", "tbl", "label", "rel", "lst", "inv", "fnd", "tp", "to", "tr", "tcnt", "tmin", "tdef", "tany", "tfirst"];
+const GEN_INVOCABLES: [&str; 35] = ["sw1", "sw2", "sw3", "sw4", "sw6", "sw7", "misc", "inv2", "rx2", "tu2", "tany2", "tp2", "to2", "num", "tmp", "rx", "c1", "c2", "c3", "c4", "svc", "tbl", "label", "rel", "lst", "inv", "fnd", "tp", "to", "tr", "tcnt", "tmin", "tdef", "tany", "tfirst"];
 
 fn setup() -> &'static Setup {
   SETUP.get_or_init(|| {
@@ -70,6 +70,9 @@ fn setup() -> &'static Setup {
         ctx: if inv == "label" { "{n: 7, t: \"ab12_34\"}".to_string() } else { "{x: 7, s: \"ab12_34\"}".to_string() },
       });
     }
+    for inv in [format!("L{}", DEEP_DECISIONS), format!("L{}", DEEP_DECISIONS), format!("L{}", DEEP_DECISIONS / 2), "L7".to_string(), "viaK".to_string()] {
+      rows.push(Row { model: "deep".to_string(), invocable: inv, ctx: "{x: 7, s: \"ab12_34\"}".to_string() });
+    }
     let mut by_model: BTreeMap<String, Vec<usize>> = BTreeMap::new();
     for (i, r) in rows.iter().enumerate() {
       by_model.entry(r.model.clone()).or_default().push(i);
@@ -81,6 +84,9 @@ fn setup() -> &'static Setup {
 
 /// Model text from the working tree (`gen` = the simulator's own multi-family model).
 pub fn model_text(model: &str) -> Option<String> {
+  if model == "deep" {
+    return Some(deep_model_text());
+  }
   if model == "gen" {
     std::fs::read_to_string(data_dir().join("gen.dmn")).ok()
   } else if let Some(name) = model.strip_prefix("edge:") {
@@ -88,6 +94,34 @@ pub fn model_text(model: &str) -> Option<String> {
   } else {
     std::fs::read_to_string(format!("{}/examples/src/{}", repo_dir(), model)).ok()
   }
+}
+
+pub const DEEP_DECISIONS: usize = 160;
+pub const DEEP_KNOWLEDGE: usize = 48;
+
+/// A model whose size lies in its *depth*: a chain of 160 decisions each requiring the one before it, and a chain
+/// of 48 business knowledge models each invoking the one before it. Many threads nested deep inside it at once is
+/// what a guard, a counter or a pool shared between calls has to survive.
+fn deep_model_text() -> String {
+  let mut t = String::from("<?xml version=\"1.0\" encoding=\"UTF-8\"?>\n<definitions namespace=\"urn:verif:deep\" name=\"deep\" id=\"_deep\" xmlns=\"https://www.omg.org/spec/DMN/20191111/MODEL/\">\n");
+  t.push_str("  <inputData name=\"x\" id=\"_x\"><variable typeRef=\"number\" name=\"x\"/></inputData>\n  <inputData name=\"s\" id=\"_s\"><variable typeRef=\"string\" name=\"s\"/></inputData>\n");
+  for k in 1..=DEEP_DECISIONS {
+    let (req, text) = if k == 1 { ("<requiredInput href=\"#_x\"/>".to_string(), "x + 1".to_string()) } else { (format!("<requiredDecision href=\"#_L{}\"/>", k - 1), format!("L{} + 1", k - 1)) };
+    t.push_str(&format!(
+      "  <decision name=\"L{k}\" id=\"_L{k}\"><variable typeRef=\"number\" name=\"L{k}\"/><informationRequirement id=\"_L{k}_r\">{req}</informationRequirement><literalExpression><text>{text}</text></literalExpression></decision>\n"
+    ));
+  }
+  for k in 1..=DEEP_KNOWLEDGE {
+    let (req, text) = if k == 1 { (String::new(), "p + 1".to_string()) } else { (format!("<knowledgeRequirement id=\"_K{}_k\"><requiredKnowledge href=\"#_K{}\"/></knowledgeRequirement>", k, k - 1), format!("K{}(p) + 1", k - 1)) };
+    t.push_str(&format!(
+      "  <businessKnowledgeModel name=\"K{k}\" id=\"_K{k}\"><variable name=\"K{k}\"/><encapsulatedLogic><formalParameter typeRef=\"number\" name=\"p\"/><literalExpression typeRef=\"number\"><text>{text}</text></literalExpression></encapsulatedLogic>{req}</businessKnowledgeModel>\n"
+    ));
+  }
+  t.push_str(&format!(
+    "  <decision name=\"viaK\" id=\"_viaK\"><variable typeRef=\"string\" name=\"viaK\"/><informationRequirement id=\"_viaK_r1\"><requiredInput href=\"#_x\"/></informationRequirement><informationRequirement id=\"_viaK_r2\"><requiredInput href=\"#_s\"/></informationRequirement><knowledgeRequirement id=\"_viaK_k\"><requiredKnowledge href=\"#_K{n}\"/></knowledgeRequirement><literalExpression><text>s + string(K{n}(x))</text></literalExpression></decision>\n</definitions>\n",
+    n = DEEP_KNOWLEDGE
+  ));
+  t
 }
 
 fn definitions(model: &str) -> Option<Arc<Definitions>> {
@@ -181,6 +215,61 @@ fn do_call(me: &ModelEvaluator, invocable: &str, input: &FeelContext) -> CallRes
   }
 }
 
+/// The calls of a plan made alone: every call on a separately built evaluator, one after another, shim in
+/// pass-through, twice (a call whose alone result is not repeatable is outside the oracle). Returns the results and
+/// the number of scheduling points and lock operations passed; `None` when a model does not build (nothing to compare).
+#[allow(clippy::type_complexity)]
+fn alone_phase(tasks: &[Vec<Call>], inputs: &[Vec<Option<FeelContext>>], defs: &BTreeMap<String, Arc<Definitions>>, out: &mut Outcome) -> Option<(Vec<Vec<Option<CallResult>>>, u64)> {
+  simrt::reset_points(PointFaults::default());
+  let ops_before = dmntk_verif_sync::stats().ops_any_mode;
+  let mut alone_eval: BTreeMap<String, Arc<ModelEvaluator>> = BTreeMap::new();
+  for (m, d) in defs {
+    match catch_unwind(AssertUnwindSafe(|| ModelEvaluator::new(d))) {
+      Ok(Ok(me)) => {
+        alone_eval.insert(m.clone(), me);
+      }
+      _ => {
+        out.counters.inc("skipped.model_does_not_build");
+        return None;
+      }
+    }
+  }
+  let mut alone: Vec<Vec<Option<CallResult>>> = vec![];
+  for (ti, t) in tasks.iter().enumerate() {
+    let mut row = vec![];
+    for (ci, c) in t.iter().enumerate() {
+      match &inputs[ti][ci] {
+        Some(input) => {
+          let r = do_call(&alone_eval[&c.model], &c.invocable, input);
+          if r.is_err() {
+            out.counters.inc("alone.call_panics");
+          }
+          row.push(Some(r));
+        }
+        None => {
+          out.counters.inc("alone.input_context_invalid");
+          row.push(None);
+        }
+      }
+    }
+    alone.push(row);
+  }
+  // repeat alone once more: a call whose alone result is not repeatable is outside this oracle
+  for (ti, t) in tasks.iter().enumerate() {
+    for (ci, c) in t.iter().enumerate() {
+      if let (Some(input), Some(Ok(first))) = (&inputs[ti][ci], &alone[ti][ci]) {
+        let again = do_call(&alone_eval[&c.model], &c.invocable, input);
+        if again.as_ref().ok() != Some(first) {
+          out.counters.inc("alone.not_repeatable");
+          alone[ti][ci] = None;
+        }
+      }
+    }
+  }
+  let alone_work = simrt::points_total() + (dmntk_verif_sync::stats().ops_any_mode.saturating_sub(ops_before));
+  Some((alone, alone_work))
+}
+
 fn viol(rule: &str, site: &str, idx: u64, expected: String, observed: String) -> Violation {
   Violation::new(rule, format!("C20:{}:{}", rule, site), idx, expected, observed)
 }
@@ -258,58 +347,24 @@ impl C20 {
       }
       inputs.push(row);
     }
-    // ---- alone phase: every call on a separately built evaluator, sequentially, shim in pass-through
-    simrt::reset_points(PointFaults::default());
-    let ops_before = dmntk_verif_sync::stats().ops_any_mode;
-    let mut alone_eval: BTreeMap<String, Arc<ModelEvaluator>> = BTreeMap::new();
-    for (m, d) in &defs {
-      match catch_unwind(AssertUnwindSafe(|| ModelEvaluator::new(d))) {
-        Ok(Ok(me)) => {
-          alone_eval.insert(m.clone(), me);
-        }
-        _ => {
-          out.counters.inc("skipped.model_does_not_build");
-          return out;
-        }
-      }
-    }
-    let mut alone: Vec<Vec<Option<CallResult>>> = vec![];
-    for (ti, t) in tasks.iter().enumerate() {
-      let mut row = vec![];
-      for (ci, c) in t.iter().enumerate() {
-        match &inputs[ti][ci] {
-          Some(input) => {
-            let r = do_call(&alone_eval[&c.model], &c.invocable, input);
-            if r.is_err() {
-              out.counters.inc("alone.call_panics");
-            }
-            row.push(Some(r));
-          }
-          None => {
-            out.counters.inc("alone.input_context_invalid");
-            row.push(None);
-          }
-        }
-      }
-      alone.push(row);
-    }
-    // repeat alone once more: a call whose alone result is not repeatable is outside this oracle
-    for (ti, t) in tasks.iter().enumerate() {
-      for (ci, c) in t.iter().enumerate() {
-        if let (Some(input), Some(Ok(first))) = (&inputs[ti][ci], &alone[ti][ci]) {
-          let again = do_call(&alone_eval[&c.model], &c.invocable, input);
-          if again.as_ref().ok() != Some(first) {
-            out.counters.inc("alone.not_repeatable");
-            alone[ti][ci] = None;
-          }
-        }
-      }
-    }
-    let alone_work = simrt::points_total() + (dmntk_verif_sync::stats().ops_any_mode - ops_before);
+    // ---- alone phase: every call on a separately built evaluator, sequentially, shim in pass-through.
+    // In a *cold* execution it comes after the concurrent phase: whatever the process keeps between calls
+    // outside the evaluator (a process-wide cache, say) is then met by the concurrent calls first.
+    let cold = pbool(plan, "cold");
     let warmup = pu64(plan, "warmup");
     let n_calls_total: u64 = tasks.iter().map(|t| t.len() as u64).sum();
-    // the warm-up calls pass scheduling points too (one runnable task: no decisions, but steps)
-    let max_steps = (200_000 + 40 * alone_work + 4 * warmup * (alone_work / (2 * n_calls_total).max(1) + 8)) as usize;
+    let mut alone_state: Option<(Vec<Vec<Option<CallResult>>>, u64)> = None;
+    if !cold {
+      match alone_phase(&tasks, &inputs, &defs, &mut out) {
+        Some(x) => alone_state = Some(x),
+        None => return out,
+      }
+    }
+    let max_steps = match &alone_state {
+      // the warm-up calls pass scheduling points too (one runnable task: no decisions, but steps)
+      Some((_, alone_work)) => (200_000 + 40 * alone_work + 4 * warmup * (alone_work / (2 * n_calls_total).max(1) + 8)) as usize,
+      None => (3_000_000 + 2_000 * warmup) as usize,
+    };
     // ---- concurrent phase
     let crash = plan.get("crash").filter(|v| !v.is_null()).map(|v| (pu64(v, "task") as usize + 1, pu64(v, "at")));
     let stall = plan.get("stall").filter(|v| !v.is_null()).map(|v| (pu64(v, "task") as usize + 1, pu64(v, "at"), pu64(v, "len")));
@@ -326,6 +381,7 @@ impl C20 {
     let inputs_arc = Arc::new(inputs.clone());
     let defs_arc = Arc::new(defs.clone());
     let handover = pbool(plan, "handover");
+    let base = pu64(plan, "base");
     let sh = Arc::clone(&shared);
     simrt::trace_begin();
     let report = simrt::run_scheduled(&kind, plan_seed, mode, max_steps, move || {
@@ -357,7 +413,7 @@ impl C20 {
             // every second warm-up call of the simulator's own model has an input of its own, so that state
             // keyed by the input (caches with a bound, say) fills up and turns over
             let own = if c.model == "gen" && i % 2 == 1 {
-              let u = 100_000 + i as u64;
+              let u = 100_000 + base + i as u64;
               let text = if c.invocable == "label" { format!("{{n: {}, t: \"wu{}_1\"}}", u, u) } else { format!("{{x: {}, s: \"wu{}_1\"}}", u, u) };
               catch_unwind(|| dmntk_feel_evaluator::evaluate_context(&Scope::default(), &text)).ok().and_then(|r| r.ok())
             } else {
@@ -448,6 +504,12 @@ impl C20 {
     if handover {
       out.counters.inc("mode.handover");
     }
+    if let Some(f) = plan.get("family").and_then(|f| f.as_str()) {
+      out.counters.inc(&format!("mode.family.{}", f));
+    }
+    if pu64(plan, "base") > 0 {
+      out.counters.inc("mode.inputs_from_a_base_of_the_execution");
+    }
     if warmup > 0 {
       out.counters.inc("mode.soak");
       out.counters.add("soak.warmup_calls", warmup);
@@ -498,10 +560,21 @@ impl C20 {
         }
       }
     }
+    if cold {
+      out.counters.inc("mode.cold");
+      match alone_phase(&tasks, &inputs, &defs, &mut out) {
+        Some(x) => alone_state = Some(x),
+        None => return out,
+      }
+    }
     if let Some(e) = shared.build_failed.lock().unwrap().clone() {
       out.violation = Some(viol("build-under-scheduler", "build-fails-only-under-scheduler", 0, "the evaluator that built alone builds under the scheduler".into(), e));
       return out;
     }
+    let alone = match alone_state {
+      Some((a, _)) => a,
+      None => return out,
+    };
     let results = shared.results.lock().unwrap().clone();
     let crashed = shared.crashed_tasks.lock().unwrap().clone();
     let mut event = 0u64;
@@ -600,10 +673,23 @@ impl Sim for C20 {
     // whatever happens every N-th call (sampling, cache eviction, a counter wrapping) happens while they
     // run. Only on the simulator's own model, whose decisions are cheap.
     let soak = rng.chance(1, 25);
-    let n_models = if soak { 1 } else { 1 + rng.index(3) };
+    // a family execution: every call is drawn from ONE of the families the property names (regular expressions,
+    // numbers, temporal values, decision tables) of the simulator's own model - what calls of one family share
+    // outside the evaluator (compiled patterns, contexts of the decimal library, zone tables) is then under load
+    // from every task at once
+    const FAMILIES: [&[&str]; 4] = [&["rx2", "rx2", "rx2", "rx", "c4"], &["num", "c1", "tbl", "misc"], &["tmp", "misc"], &["tp", "to", "tr", "tcnt", "tmin", "tdef", "tany", "tfirst", "tp2", "to2", "tu2", "tany2", "tbl"]];
+    let family_index = if !soak && rng.chance(1, 5) { Some(rng.index(4)) } else { None };
+    // experiments only (never set by the registered commands): every execution is of one family
+    let family_index = match std::env::var("VERIF_C20_FORCE_FAMILY").ok().and_then(|v| v.parse::<usize>().ok()) {
+      Some(i) if !soak => Some(i % 4),
+      _ => family_index,
+    };
+    let family: Option<&[&str]> = family_index.map(|i| FAMILIES[i]);
+    let gen_only = soak || family.is_some();
+    let n_models = if gen_only { 1 } else { 1 + rng.index(3) };
     let mut models: Vec<String> = vec![];
     for _ in 0..n_models {
-      if soak {
+      if gen_only {
         models.push("gen".to_string());
         break;
       }
@@ -611,6 +697,8 @@ impl Sim for C20 {
       // inputs (the lending example, the decision service and built-in function suites) come up more often
       let m = if rng.chance(1, 3) {
         "gen".to_string()
+      } else if rng.chance(1, 10) {
+        "deep".to_string()
       } else if rng.chance(1, 2) {
         s.rows[rng.index(s.rows.len())].model.clone()
       } else {
@@ -624,16 +712,31 @@ impl Sim for C20 {
       Tier::Quick => 8,
       Tier::Thorough => 16,
     };
-    let n_tasks = if rng.chance(3, 4) { 2 + rng.index(3) } else { 2 + rng.index(max_tasks - 1) };
+    let n_tasks = if family.is_some() {
+      4 + rng.index(5)
+    } else if rng.chance(3, 4) {
+      2 + rng.index(3)
+    } else {
+      2 + rng.index(max_tasks - 1)
+    };
+    // the values unique to (task, call) start at a base of the execution's own in half of the executions: what the
+    // process keeps across executions under a key taken from the input never meets the same key twice
+    let base: u64 = if rng.chance(1, 2) { 0 } else { 20 * (1 + rng.below(40_000)) };
     let mut tasks = vec![];
     for ti in 0..n_tasks {
       let n_calls = 1 + rng.index(if n_tasks > 8 { 3 } else { 6 });
       let mut calls = vec![];
       for ci in 0..n_calls {
         let m = rng.pick(&models).clone();
-        let row = &s.rows[*rng.pick(&s.by_model[&m])];
-        let unique = (ti as u64) * 100 + ci as u64 + 11;
-        let ctx = if m == "gen" {
+        let row = match family {
+          Some(f) => {
+            let inv = *rng.pick(f);
+            s.rows.iter().find(|r| r.model == "gen" && r.invocable == inv).unwrap_or(&s.rows[*rng.pick(&s.by_model[&m])])
+          }
+          None => &s.rows[*rng.pick(&s.by_model[&m])],
+        };
+        let unique = base + (ti as u64) * 100 + ci as u64 + 11;
+        let ctx = if m == "gen" || m == "deep" {
           if row.invocable == "label" {
             format!("{{n: {}, t: \"ab{}_{}\"}}", unique, unique, ci)
           } else {
@@ -687,8 +790,8 @@ impl Sim for C20 {
         let hot = rng.pick(&all).clone();
         let hot_row = s.rows.iter().find(|r| r.model == pstr(&hot, "model") && r.invocable == pstr(&hot, "invocable"));
         for (ti, t) in tasks.iter_mut().enumerate() {
-          let unique = (ti as u64) * 100 + 11;
-          let ctx = if pstr(&hot, "model") == "gen" {
+          let unique = base + (ti as u64) * 100 + 11;
+          let ctx = if pstr(&hot, "model") == "gen" || pstr(&hot, "model") == "deep" {
             if pstr(&hot, "invocable") == "label" {
               format!("{{n: {}, t: \"ab{}_0\"}}", unique, unique)
             } else {
@@ -706,6 +809,7 @@ impl Sim for C20 {
     }
     let kind = match rng.index(8) {
       0..=2 => json!({"kind": "random"}),
+      3 | 4 if family.is_some() => json!({"kind": "random"}),
       3..=6 => json!({"kind": "pct", "depth": 1 + rng.index(5)}),
       _ => json!({"kind": "urw"}),
     };
@@ -721,10 +825,15 @@ impl Sim for C20 {
       let threshold = *rng.pick(&[16u64, 32, 50, 64, 100, 128, 200, 256, 500, 512, 1000, 1000, 1024, 1024, 2048, 4096]);
       // the threshold-th call is one of the concurrent ones
       threshold.saturating_sub(1 + rng.below(total.max(1)))
+    } else if family.is_some() {
+      // a bounded store shared by the calls of the family is at an arbitrary fill level when the tasks start
+      rng.below(160)
     } else {
       0
     };
-    json!({"tasks": tasks, "sched": sched, "crash": crash, "stall": stall, "handover": handover, "warmup": warmup})
+    // a cold execution: the calls are made alone AFTER the concurrent phase (see `exec_inner`)
+    let cold = rng.chance(1, 3);
+    json!({"tasks": tasks, "sched": sched, "crash": crash, "stall": stall, "handover": handover, "warmup": warmup, "base": base, "cold": cold, "family": family_index.map(|i| ["regex", "numeric", "temporal", "tables"][i])})
   }
   fn exec(&self, plan: &Value, mode: &ExecMode) -> Outcome {
     self.exec_inner(plan, mode, true)
